@@ -83,6 +83,8 @@ type vOp struct {
 	Hist   int                    `json:"hist,omitempty"`
 	Class  string                 `json:"class,omitempty"` // generator's name for the op (distribution / oracle hints)
 	Quiet  int                    `json:"quiet,omitempty"` // k-th consecutive poll with no server event since the previous poll
+	Until  int64                  `json:"until,omitempty"` // sleep: until t0+Until (real clock)
+	Order  []string               `json:"order,omitempty"` // poll/pollB: ids in the order updateService stored them (Go map iteration)
 }
 
 // ---------- signing ----------
@@ -131,6 +133,7 @@ type vWorld struct {
 	byID     map[string]*vBuilt
 	seeds    []string
 	gate     func() // armed: runs once after the first read of sqlStore.get on the server
+	addOrder []string // presentation ids in the order the client stored them during the running updateService
 	credPool map[string]vc.VerifiableCredential
 }
 
@@ -468,9 +471,6 @@ func (w *vWorld) observe(cls string, now int64) string {
 				return rows[a].PresentationID < rows[b].PresentationID
 			})
 			for _, r := range rows {
-				if r.PresentationExpiration < now {
-					continue // prunable rows: their presence depends on Go's map iteration order in updateService
-				}
 				rs = append(rs, w.rowString(r, false))
 			}
 			sb.WriteString(fmt.Sprintf(" | C seed=%s ts=%d [%s]", w.seedName(svc.Seed), svc.LastLamportTimestamp, strings.Join(rs, " ")))
@@ -570,11 +570,19 @@ func (r *vRunner) exec(op vOp, src func() (vOp, bool)) {
 		}
 		r.emit(op, w.observe("ok", op.Now))
 	case "poll":
+		w.addOrder = nil
 		cls := vRecover(func() error { return w.client.clientUpdater.updateService(ctx, w.def) })
+		op.Order = w.addOrder
 		r.emit(op, w.observe(cls, op.Now))
 	case "validate":
 		cls := vRecover(func() error { return w.client.registrationManager.validate() })
 		r.emit(op, w.observe(cls, op.Now))
+	case "sleep":
+		for vNow() < w.t0+op.Until {
+			time.Sleep(50 * time.Millisecond)
+		}
+		op.Now = vNow()
+		r.emit(op, w.observe("ok", op.Now))
 	case "pollA":
 		// the first read of sqlStore.get happens when updateService runs; nothing happens on either node between
 		// this op and that read, so the state observed here is the state it reads
@@ -593,12 +601,14 @@ func (r *vRunner) exec(op vOp, src func() (vOp, bool)) {
 				r.exec(mid, nil)
 			}
 		}
+		w.addOrder = nil
 		cls := vRecover(func() error { return w.client.clientUpdater.updateService(ctx, w.def) })
 		w.gate = nil
 		if !fired {
 			r.t.Fatalf("gate did not fire during updateService")
 		}
-		r.emit(vOp{Op: "pollB", Now: vNow()}, w.observe(cls, vNow()))
+		nowB := vNow()
+		r.emit(vOp{Op: "pollB", Now: nowB, Order: w.addOrder}, w.observe(cls, nowB))
 	default:
 		r.t.Fatalf("unknown op %q", op.Op)
 	}
@@ -672,10 +682,20 @@ func (r *vRunner) genServerOp(lastExp map[string]int64) vOp {
 		}
 	case pick < 66:
 		class, rec.VerifyS = "defect:verify", false
-	case pick < 69:
+	case pick < 68:
 		// expired on arrival and (as the real verifier would) rejected
 		class, rec.Exp, rec.VerifyS = "defect:expired-rejected", i64(-600-int64(rng.Intn(100))), false
-	case pick < 72:
+	case pick < 70:
+		// expired on arrival but let through by a lenient verifier: a subject of its own (s4), so that no live entry is
+		// replaced by a shorter-lived one; exercises prune / search on expired rows
+		class, rec.Subject = "expired-accepted", "did:example:s4"
+		e := int64(-700 + rng.Intn(50))
+		if le, ok := lastExp[rec.Subject]; ok && e < le {
+			e = le + int64(rng.Intn(3))
+		}
+		rec.Exp = i64(e)
+		lastExp[rec.Subject] = e
+	case pick < 73:
 		// the same presentation again
 		if len(rows) > 0 {
 			if b := r.w.byRaw[rows[rng.Intn(len(rows))].PresentationRaw]; b != nil {
@@ -806,6 +826,68 @@ func (r *vRunner) history(hist int, nOps int) {
 	}
 }
 
+// sleepHistory lets presentations expire on the real clock: short-lived ones (exp = t0+3) are registered in a fast first
+// phase, then the harness sleeps past their expiry (t0+5) and goes on (registrations prune, polls, search).
+// Every clock comparison in either phase is at least one second away from its boundary.
+func (r *vRunner) sleepHistory(hist int) {
+	rng := r.rng
+	r.initHistory(hist, vDefRecipe{MaxValidity: 7200, DIDMethods: []string{"example"}})
+	t0 := r.w.t0
+	const short = int64(3)
+	lastExp := map[string]int64{}
+	quiet := 0
+	n1 := 4 + rng.Intn(7)
+	for i := 0; i < n1 && vNow() <= t0+1; i++ {
+		switch p := rng.Intn(10); {
+		case p < 6:
+			subj := vSubjects[rng.Intn(len(vSubjects))]
+			rec := r.validRecipe(subj)
+			class := "valid"
+			le, had := lastExp[subj]
+			if (!had || le == short) && rng.Intn(3) != 0 {
+				rec.Exp, class = i64(short), "valid-short-lived"
+			} else if had && *rec.Exp < le {
+				rec.Exp = i64(le + 1)
+			}
+			lastExp[subj] = *rec.Exp
+			r.exec(vOp{Op: "register", Recipe: &rec, Class: class}, nil)
+			quiet = 0
+		case p < 9:
+			quiet++
+			r.exec(vOp{Op: "poll", Quiet: quiet}, nil)
+		default:
+			r.exec(vOp{Op: "validate"}, nil)
+		}
+	}
+	r.exec(vOp{Op: "sleep", Until: 5, Class: "expire"}, nil)
+	n2 := 5 + rng.Intn(8)
+	for i := 0; i < n2; i++ {
+		switch p := rng.Intn(10); {
+		case p < 5:
+			o := r.genServerOp(lastExp)
+			if o.Recipe.Exp != nil {
+				if rel := vNow() - t0; *o.Recipe.Exp > rel-60 && *o.Recipe.Exp < rel+60 {
+					o.Recipe.Exp = i64(3600 + int64(rng.Intn(600))) // keep away from the clock
+				}
+			}
+			if (o.Class == "valid" || strings.HasPrefix(o.Class, "retract:owner")) && o.Recipe.Exp != nil && *o.Recipe.Exp > lastExp[o.Recipe.Subject] {
+				lastExp[o.Recipe.Subject] = *o.Recipe.Exp
+			}
+			r.exec(o, nil)
+			quiet = 0
+		case p < 9:
+			quiet++
+			r.exec(vOp{Op: "poll", Quiet: quiet}, nil)
+		default:
+			r.exec(vOp{Op: "validate"}, nil)
+		}
+	}
+	for k := 0; k < 2; k++ {
+		quiet++
+		r.exec(vOp{Op: "poll", Quiet: quiet}, nil)
+	}
+}
+
 // replayFile re-runs the ops of a file (recipes are authoritative; times are re-based on the current clock)
 func (r *vRunner) replayFile(path string) {
 	f, err := os.Open(path)
@@ -913,6 +995,19 @@ func TestVerifC16(t *testing.T) {
 		t.Fatal(err)
 	}
 	_ = core.TestServerConfig
+	// the order in which updateService stores presentations (Go map iteration order) is observed on the client DB and told
+	// to the model: presentations it skips are no-ops wherever they come, so the order of the stored ones decides the outcome
+	err = r.engC.GetSQLDatabase().Callback().Create().After("gorm:create").Register("verif:order", func(tx *gorm.DB) {
+		if r.w == nil || tx.Statement == nil || tx.Statement.Table != "discovery_presentation" {
+			return
+		}
+		if rec, ok := tx.Statement.Dest.(*presentationRecord); ok {
+			r.w.addOrder = append(r.w.addOrder, rec.PresentationID)
+		}
+	})
+	if err != nil {
+		t.Fatal(err)
+	}
 
 	if rp := os.Getenv("VERIF_REPLAY"); rp != "" {
 		r.replayFile(rp)
@@ -925,8 +1020,12 @@ func TestVerifC16(t *testing.T) {
 			r.replayFile(f)
 		}
 	}
+	nSleep, _ := strconv.Atoi(os.Getenv("VERIF_SLEEP_HISTORIES"))
 	for h := 1; h <= nHist; h++ {
 		r.history(h, nOps)
+		if h <= nSleep {
+			r.sleepHistory(100000 + h)
+		}
 	}
 	t.Logf("C16: %d ops", r.nOps)
 }
